@@ -14,48 +14,60 @@ namespace Ssd
 
 /-- everything but the contents of the two planes agrees -/
 structure CtlEq (a b : Ssd) : Prop where
-  regs : SameRegs a b
+  regs : SameCfg a b
   cx : a.cx = b.cx
   cy : a.cy = b.cy
 
-theorem CtlEq.refl (a : Ssd) : CtlEq a a := ⟨SameRegs.refl a, rfl, rfl⟩
+theorem CtlEq.refl (a : Ssd) : CtlEq a a := ⟨(SameRegs.refl a).toCfg, rfl, rfl⟩
 
 theorem CtlEq.symm {a b : Ssd} (h : CtlEq a b) : CtlEq b a :=
   ⟨⟨h.regs.xPix.symm, h.regs.stride.symm, h.regs.rows.symm, h.regs.entry.symm, h.regs.xs.symm, h.regs.xe.symm,
     h.regs.ys.symm, h.regs.ye.symm, h.regs.uc2.symm, h.regs.asleep.symm, h.regs.initialised.symm,
-    h.regs.resetSeen.symm, h.regs.unsupported.symm, h.regs.ignored.symm, h.regs.epis.symm,
+    h.regs.resetSeen.symm, h.regs.unsupported.symm, h.regs.ignored.symm,
     h.regs.refreshes.symm, h.regs.regs.symm⟩, h.cx.symm, h.cy.symm⟩
 
 theorem CtlEq.trans {a b c : Ssd} (h1 : CtlEq a b) (h2 : CtlEq b c) : CtlEq a c :=
-  ⟨h1.regs.trans h2.regs, h1.cx.trans h2.cx, h1.cy.trans h2.cy⟩
+  ⟨⟨h1.regs.xPix.trans h2.regs.xPix, h1.regs.stride.trans h2.regs.stride, h1.regs.rows.trans h2.regs.rows,
+    h1.regs.entry.trans h2.regs.entry, h1.regs.xs.trans h2.regs.xs, h1.regs.xe.trans h2.regs.xe,
+    h1.regs.ys.trans h2.regs.ys, h1.regs.ye.trans h2.regs.ye, h1.regs.uc2.trans h2.regs.uc2,
+    h1.regs.asleep.trans h2.regs.asleep, h1.regs.initialised.trans h2.regs.initialised,
+    h1.regs.resetSeen.trans h2.regs.resetSeen, h1.regs.unsupported.trans h2.regs.unsupported,
+    h1.regs.ignored.trans h2.regs.ignored, h1.regs.refreshes.trans h2.regs.refreshes,
+    h1.regs.regs.trans h2.regs.regs⟩, h1.cx.trans h2.cx, h1.cy.trans h2.cy⟩
 
 /-- replace the planes -/
-def withPlanes (s : Ssd) (bw red : Array UInt8) : Ssd := { s with bw := bw, red := red }
+def withData (s : Ssd) (bw red : Array UInt8) (e : List Episode) : Ssd := { s with bw := bw, red := red, epis := e }
 
-theorem CtlEq.eq_withPlanes {a b : Ssd} (h : CtlEq a b) : b = a.withPlanes b.bw b.red := by
+/-- replace the planes only -/
+def withPlanes (s : Ssd) (bw red : Array UInt8) : Ssd := s.withData bw red s.epis
+
+theorem CtlEq.eq_withData {a b : Ssd} (h : CtlEq a b) : b = a.withData b.bw b.red b.epis := by
   cases a; cases b
   have h1 := h.regs; have h2 := h.cx; have h3 := h.cy
   cases h1
-  simp only [withPlanes] at *
+  simp only [withData] at *
   subst_vars
   rfl
 
+theorem withData_ctlEq (a : Ssd) (x y : Array UInt8) (e : List Episode) : CtlEq a (a.withData x y e) :=
+  ⟨⟨rfl, rfl, rfl, rfl, rfl, rfl, rfl, rfl, rfl, rfl, rfl, rfl, rfl, rfl, rfl, rfl⟩, rfl, rfl⟩
+
 theorem withPlanes_ctlEq (a : Ssd) (x y : Array UInt8) : CtlEq a (a.withPlanes x y) :=
-  ⟨⟨rfl, rfl, rfl, rfl, rfl, rfl, rfl, rfl, rfl, rfl, rfl, rfl, rfl, rfl, rfl, rfl, rfl⟩, rfl, rfl⟩
+  ⟨⟨rfl, rfl, rfl, rfl, rfl, rfl, rfl, rfl, rfl, rfl, rfl, rfl, rfl, rfl, rfl, rfl⟩, rfl, rfl⟩
 
 theorem advance_ctlEq {a b : Ssd} (h : CtlEq a b) : CtlEq a.advance b.advance := by
-  rw [h.eq_withPlanes]
-  generalize b.bw = x; generalize b.red = y
-  unfold advance stepY xInc yInc withPlanes
+  rw [h.eq_withData]
+  generalize b.bw = x; generalize b.red = y; generalize b.epis = e
+  unfold advance stepY xInc yInc withData
   simp only
   split
   · split
-    · exact ⟨⟨rfl, rfl, rfl, rfl, rfl, rfl, rfl, rfl, rfl, rfl, rfl, rfl, rfl, rfl, rfl, rfl, rfl⟩, rfl, rfl⟩
-    · split <;> exact ⟨⟨rfl, rfl, rfl, rfl, rfl, rfl, rfl, rfl, rfl, rfl, rfl, rfl, rfl, rfl, rfl, rfl, rfl⟩, rfl, rfl⟩
-  · split <;> exact ⟨⟨rfl, rfl, rfl, rfl, rfl, rfl, rfl, rfl, rfl, rfl, rfl, rfl, rfl, rfl, rfl, rfl, rfl⟩, rfl, rfl⟩
+    · exact ⟨⟨rfl, rfl, rfl, rfl, rfl, rfl, rfl, rfl, rfl, rfl, rfl, rfl, rfl, rfl, rfl, rfl⟩, rfl, rfl⟩
+    · split <;> exact ⟨⟨rfl, rfl, rfl, rfl, rfl, rfl, rfl, rfl, rfl, rfl, rfl, rfl, rfl, rfl, rfl, rfl⟩, rfl, rfl⟩
+  · split <;> exact ⟨⟨rfl, rfl, rfl, rfl, rfl, rfl, rfl, rfl, rfl, rfl, rfl, rfl, rfl, rfl, rfl, rfl⟩, rfl, rfl⟩
 
 theorem store_ctlEq (p : Nat) (s : Ssd) (b : UInt8) : CtlEq (store p s b) s :=
-  ⟨store_sameRegs p s b, store_cx p s b, store_cy p s b⟩
+  ⟨(store_sameRegs p s b).toCfg, store_cx p s b, store_cy p s b⟩
 
 theorem inRam_ctlEq {a b : Ssd} (h : CtlEq a b) : a.inRam = b.inRam := by
   unfold inRam; rw [h.cx, h.cy, h.regs.stride, h.regs.rows]
@@ -95,95 +107,95 @@ theorem ite_ctl (c : Prop) [Decidable c] {A B A' B' : Ssd} (h1 : CtlEq A A') (h2
   · rw [if_pos h, if_pos h]; exact h1
   · rw [if_neg h, if_neg h]; exact h2
 
-theorem regStep_ctlEq (cmd : UInt8) (ps : List UInt8) (s : Ssd) (x y : Array UInt8) :
-    CtlEq (regStep cmd ps s) (regStep cmd ps (s.withPlanes x y)) := by
+theorem regStep_ctlEq (cmd : UInt8) (ps : List UInt8) (s : Ssd) (x y : Array UInt8) (e : List Episode) :
+    CtlEq (regStep cmd ps s) (regStep cmd ps (s.withData x y e)) := by
   have L : ∀ {a b : Ssd}, a.xPix = b.xPix → a.stride = b.stride → a.rows = b.rows → a.entry = b.entry → a.xs = b.xs →
       a.xe = b.xe → a.ys = b.ys → a.ye = b.ye → a.uc2 = b.uc2 → a.asleep = b.asleep → a.initialised = b.initialised →
-      a.resetSeen = b.resetSeen → a.unsupported = b.unsupported → a.ignored = b.ignored → a.epis = b.epis →
+      a.resetSeen = b.resetSeen → a.unsupported = b.unsupported → a.ignored = b.ignored →
       a.refreshes = b.refreshes → a.regs = b.regs → a.cx = b.cx → a.cy = b.cy → CtlEq a b :=
-    fun h1 h2 h3 h4 h5 h6 h7 h8 h9 h10 h11 h12 h13 h14 h15 h16 h17 h18 h19 =>
-      ⟨⟨h1, h2, h3, h4, h5, h6, h7, h8, h9, h10, h11, h12, h13, h14, h15, h16, h17⟩, h18, h19⟩
-  have e1 : (s.withPlanes x y).xPix = s.xPix := rfl
-  have e2 : (s.withPlanes x y).uc2 = s.uc2 := rfl
+    fun h1 h2 h3 h4 h5 h6 h7 h8 h9 h10 h11 h12 h13 h14 h16 h17 h18 h19 =>
+      ⟨⟨h1, h2, h3, h4, h5, h6, h7, h8, h9, h10, h11, h12, h13, h14, h16, h17⟩, h18, h19⟩
+  have e1 : (s.withData x y e).xPix = s.xPix := rfl
+  have e2 : (s.withData x y e).uc2 = s.uc2 := rfl
   unfold regStep
   rw [e1, e2]
   by_cases h0 : cmd = 0x12
   · rw [if_pos h0, if_pos h0]
-    exact L rfl rfl rfl rfl rfl rfl rfl rfl rfl rfl rfl rfl rfl rfl rfl rfl rfl rfl rfl
+    exact L rfl rfl rfl rfl rfl rfl rfl rfl rfl rfl rfl rfl rfl rfl rfl rfl rfl rfl
   · rw [if_neg h0, if_neg h0]
     by_cases h1 : cmd = 0x11
     · rw [if_pos h1, if_pos h1]
       rcases ps with _ | ⟨p0, _ | ⟨p1, t⟩⟩
-      all_goals exact L rfl rfl rfl rfl rfl rfl rfl rfl rfl rfl rfl rfl rfl rfl rfl rfl rfl rfl rfl
+      all_goals exact L rfl rfl rfl rfl rfl rfl rfl rfl rfl rfl rfl rfl rfl rfl rfl rfl rfl rfl
     · rw [if_neg h1, if_neg h1]
       by_cases h2 : cmd = 0x44
       · rw [if_pos h2, if_pos h2]
-        rcases hxp : s.xPix with _ | _ <;> (rcases ps with _ | ⟨p0, _ | ⟨p1, _ | ⟨p2, _ | ⟨p3, _ | ⟨p4, t⟩⟩⟩⟩⟩) <;> exact L rfl rfl rfl rfl rfl rfl rfl rfl rfl rfl rfl rfl rfl rfl rfl rfl rfl rfl rfl
+        rcases hxp : s.xPix with _ | _ <;> (rcases ps with _ | ⟨p0, _ | ⟨p1, _ | ⟨p2, _ | ⟨p3, _ | ⟨p4, t⟩⟩⟩⟩⟩) <;> exact L rfl rfl rfl rfl rfl rfl rfl rfl rfl rfl rfl rfl rfl rfl rfl rfl rfl rfl
       · rw [if_neg h2, if_neg h2]
         by_cases h3 : cmd = 0x45
         · rw [if_pos h3, if_pos h3]
           rcases ps with _ | ⟨p0, _ | ⟨p1, _ | ⟨p2, _ | ⟨p3, _ | ⟨p4, t⟩⟩⟩⟩⟩
-          all_goals exact L rfl rfl rfl rfl rfl rfl rfl rfl rfl rfl rfl rfl rfl rfl rfl rfl rfl rfl rfl
+          all_goals exact L rfl rfl rfl rfl rfl rfl rfl rfl rfl rfl rfl rfl rfl rfl rfl rfl rfl rfl
         · rw [if_neg h3, if_neg h3]
           by_cases h4 : cmd = 0x4E
           · rw [if_pos h4, if_pos h4]
-            rcases hxp : s.xPix with _ | _ <;> (rcases ps with _ | ⟨p0, _ | ⟨p1, _ | ⟨p2, t⟩⟩⟩) <;> exact L rfl rfl rfl rfl rfl rfl rfl rfl rfl rfl rfl rfl rfl rfl rfl rfl rfl rfl rfl
+            rcases hxp : s.xPix with _ | _ <;> (rcases ps with _ | ⟨p0, _ | ⟨p1, _ | ⟨p2, t⟩⟩⟩) <;> exact L rfl rfl rfl rfl rfl rfl rfl rfl rfl rfl rfl rfl rfl rfl rfl rfl rfl rfl
           · rw [if_neg h4, if_neg h4]
             by_cases h5 : cmd = 0x4F
             · rw [if_pos h5, if_pos h5]
               rcases ps with _ | ⟨p0, _ | ⟨p1, _ | ⟨p2, t⟩⟩⟩
-              all_goals exact L rfl rfl rfl rfl rfl rfl rfl rfl rfl rfl rfl rfl rfl rfl rfl rfl rfl rfl rfl
+              all_goals exact L rfl rfl rfl rfl rfl rfl rfl rfl rfl rfl rfl rfl rfl rfl rfl rfl rfl rfl
             · rw [if_neg h5, if_neg h5]
               by_cases h6 : cmd = 0x22
               · rw [if_pos h6, if_pos h6]
                 rcases ps with _ | ⟨p0, _ | ⟨p1, t⟩⟩
-                all_goals exact L rfl rfl rfl rfl rfl rfl rfl rfl rfl rfl rfl rfl rfl rfl rfl rfl rfl rfl rfl
+                all_goals exact L rfl rfl rfl rfl rfl rfl rfl rfl rfl rfl rfl rfl rfl rfl rfl rfl rfl rfl
               · rw [if_neg h6, if_neg h6]
                 by_cases h7 : cmd = 0x20
                 · rw [if_pos h7, if_pos h7]
                   by_cases hd : s.uc2.toNat / 4 % 2 = 1
-                  · rw [if_pos hd, if_pos hd]; exact L rfl rfl rfl rfl rfl rfl rfl rfl rfl rfl rfl rfl rfl rfl rfl rfl rfl rfl rfl
-                  · rw [if_neg hd, if_neg hd]; exact L rfl rfl rfl rfl rfl rfl rfl rfl rfl rfl rfl rfl rfl rfl rfl rfl rfl rfl rfl
+                  · rw [if_pos hd, if_pos hd]; exact L rfl rfl rfl rfl rfl rfl rfl rfl rfl rfl rfl rfl rfl rfl rfl rfl rfl rfl
+                  · rw [if_neg hd, if_neg hd]; exact L rfl rfl rfl rfl rfl rfl rfl rfl rfl rfl rfl rfl rfl rfl rfl rfl rfl rfl
                 · rw [if_neg h7, if_neg h7]
                   by_cases h8 : cmd = 0x46
                   · rw [if_pos h8, if_pos h8]
                     rcases ps with _ | ⟨p0, _ | ⟨p1, t⟩⟩
-                    all_goals (first | exact L rfl rfl rfl rfl rfl rfl rfl rfl rfl rfl rfl rfl rfl rfl rfl rfl rfl rfl rfl | (simp only [fillPlane, withPlanes]; split <;> exact L rfl rfl rfl rfl rfl rfl rfl rfl rfl rfl rfl rfl rfl rfl rfl rfl rfl rfl rfl))
+                    all_goals (first | exact L rfl rfl rfl rfl rfl rfl rfl rfl rfl rfl rfl rfl rfl rfl rfl rfl rfl rfl | (simp only [fillPlane, withData]; split <;> exact L rfl rfl rfl rfl rfl rfl rfl rfl rfl rfl rfl rfl rfl rfl rfl rfl rfl rfl))
                   · rw [if_neg h8, if_neg h8]
                     by_cases h9 : cmd = 0x47
                     · rw [if_pos h9, if_pos h9]
                       rcases ps with _ | ⟨p0, _ | ⟨p1, t⟩⟩
-                      all_goals (first | exact L rfl rfl rfl rfl rfl rfl rfl rfl rfl rfl rfl rfl rfl rfl rfl rfl rfl rfl rfl | (simp only [fillPlane, withPlanes]; split <;> exact L rfl rfl rfl rfl rfl rfl rfl rfl rfl rfl rfl rfl rfl rfl rfl rfl rfl rfl rfl))
+                      all_goals (first | exact L rfl rfl rfl rfl rfl rfl rfl rfl rfl rfl rfl rfl rfl rfl rfl rfl rfl rfl | (simp only [fillPlane, withData]; split <;> exact L rfl rfl rfl rfl rfl rfl rfl rfl rfl rfl rfl rfl rfl rfl rfl rfl rfl rfl))
                     · rw [if_neg h9, if_neg h9]
                       by_cases h10 : cmd = 0x10
                       · rw [if_pos h10, if_pos h10]
                         rcases ps with _ | ⟨p0, _ | ⟨p1, t⟩⟩
-                        all_goals (first | exact L rfl rfl rfl rfl rfl rfl rfl rfl rfl rfl rfl rfl rfl rfl rfl rfl rfl rfl rfl | exact ite_ctl _ (L rfl rfl rfl rfl rfl rfl rfl rfl rfl rfl rfl rfl rfl rfl rfl rfl rfl rfl rfl) (L rfl rfl rfl rfl rfl rfl rfl rfl rfl rfl rfl rfl rfl rfl rfl rfl rfl rfl rfl))
+                        all_goals (first | exact L rfl rfl rfl rfl rfl rfl rfl rfl rfl rfl rfl rfl rfl rfl rfl rfl rfl rfl | exact ite_ctl _ (L rfl rfl rfl rfl rfl rfl rfl rfl rfl rfl rfl rfl rfl rfl rfl rfl rfl rfl) (L rfl rfl rfl rfl rfl rfl rfl rfl rfl rfl rfl rfl rfl rfl rfl rfl rfl rfl))
                       · rw [if_neg h10, if_neg h10]
                         by_cases h11 : cmd = 0x07
                         · rw [if_pos h11, if_pos h11]
                           rcases ps with _ | ⟨p0, _ | ⟨p1, t⟩⟩
-                          all_goals (first | exact L rfl rfl rfl rfl rfl rfl rfl rfl rfl rfl rfl rfl rfl rfl rfl rfl rfl rfl rfl | exact ite_ctl _ (L rfl rfl rfl rfl rfl rfl rfl rfl rfl rfl rfl rfl rfl rfl rfl rfl rfl rfl rfl) (L rfl rfl rfl rfl rfl rfl rfl rfl rfl rfl rfl rfl rfl rfl rfl rfl rfl rfl rfl))
+                          all_goals (first | exact L rfl rfl rfl rfl rfl rfl rfl rfl rfl rfl rfl rfl rfl rfl rfl rfl rfl rfl | exact ite_ctl _ (L rfl rfl rfl rfl rfl rfl rfl rfl rfl rfl rfl rfl rfl rfl rfl rfl rfl rfl) (L rfl rfl rfl rfl rfl rfl rfl rfl rfl rfl rfl rfl rfl rfl rfl rfl rfl rfl))
                         · rw [if_neg h11, if_neg h11]
-                          exact L rfl rfl rfl rfl rfl rfl rfl rfl rfl rfl rfl rfl rfl rfl rfl rfl rfl rfl rfl
+                          exact L rfl rfl rfl rfl rfl rfl rfl rfl rfl rfl rfl rfl rfl rfl rfl rfl rfl rfl
 
 /-- `feed` on one and the same non-RAM block -/
-theorem feed_ctlEq_same (a : Ssd) (x y : Array UInt8) (blk : Blk)
+theorem feed_ctlEq_same (a : Ssd) (x y : Array UInt8) (e : List Episode) (blk : Blk)
     (hn : ∀ c ps, blk = .c c ps → ¬ (c = 0x24 ∨ c = 0x26)) :
-    CtlEq (a.feed blk) ((a.withPlanes x y).feed blk) := by
+    CtlEq (a.feed blk) ((a.withData x y e).feed blk) := by
   cases blk with
-  | rst => exact ⟨⟨rfl, rfl, rfl, rfl, rfl, rfl, rfl, rfl, rfl, rfl, rfl, rfl, rfl, rfl, rfl, rfl, rfl⟩, rfl, rfl⟩
-  | stray _ => exact withPlanes_ctlEq a x y
+  | rst => exact ⟨⟨rfl, rfl, rfl, rfl, rfl, rfl, rfl, rfl, rfl, rfl, rfl, rfl, rfl, rfl, rfl, rfl⟩, rfl, rfl⟩
+  | stray _ => exact withData_ctlEq a x y e
   | c cmd ps =>
     have hn' := hn cmd ps rfl
     unfold feed
-    have e0 : (a.withPlanes x y).asleep = a.asleep := rfl
+    have e0 : (a.withData x y e).asleep = a.asleep := rfl
     rw [e0]
     by_cases h0 : a.asleep
     · simp only [h0, if_true]
-      exact ⟨⟨rfl, rfl, rfl, rfl, rfl, rfl, rfl, rfl, rfl, rfl, rfl, rfl, rfl, rfl, rfl, rfl, rfl⟩, rfl, rfl⟩
+      exact ⟨⟨rfl, rfl, rfl, rfl, rfl, rfl, rfl, rfl, rfl, rfl, rfl, rfl, rfl, rfl, rfl, rfl⟩, rfl, rfl⟩
     · simp only [h0, Bool.false_eq_true, if_false, if_neg hn']
-      exact regStep_ctlEq cmd ps { a with regs := (cmd, ps) :: a.regs, asleep := false } x y
+      exact regStep_ctlEq cmd ps { a with regs := (cmd, ps) :: a.regs, asleep := false } x y e
 
 /-- `feed` preserves `CtlEq` across shape-equal blocks -/
 theorem feed_ctlEq {a b : Ssd} (h : CtlEq a b) {blk blk' : Blk} (hs : ShapeEq blk blk') :
@@ -192,8 +204,8 @@ theorem feed_ctlEq {a b : Ssd} (h : CtlEq a b) {blk blk' : Blk} (hs : ShapeEq bl
   | rst =>
     cases blk' with
     | rst =>
-      rw [h.eq_withPlanes]
-      exact feed_ctlEq_same a _ _ .rst (by intro c ps hh; cases hh)
+      rw [h.eq_withData]
+      exact feed_ctlEq_same a _ _ _ .rst (by intro c ps hh; cases hh)
     | c _ _ => exact absurd hs (by simp [ShapeEq])
     | stray _ => exact absurd hs (by simp [ShapeEq])
   | stray s1 =>
@@ -210,26 +222,24 @@ theorem feed_ctlEq {a b : Ssd} (h : CtlEq a b) {blk blk' : Blk} (hs : ShapeEq bl
       subst hc
       by_cases hr : cmd = 0x24 ∨ cmd = 0x26
       · rw [if_pos hr] at hp
-        rw [h.eq_withPlanes]
-        generalize b.bw = x; generalize b.red = y
+        rw [h.eq_withData]
+        generalize b.bw = x; generalize b.red = y; generalize b.epis = e
         unfold feed
         by_cases h0 : a.asleep
-        · simp only [withPlanes, h0, if_true]
-          exact ⟨⟨rfl, rfl, rfl, rfl, rfl, rfl, rfl, rfl, rfl, rfl, rfl, rfl, rfl, rfl, rfl, rfl, rfl⟩, rfl, rfl⟩
-        · have h0' : (a.withPlanes x y).asleep = false := by simpa [withPlanes] using h0
+        · simp only [withData, h0, if_true]
+          exact ⟨⟨rfl, rfl, rfl, rfl, rfl, rfl, rfl, rfl, rfl, rfl, rfl, rfl, rfl, rfl, rfl, rfl⟩, rfl, rfl⟩
+        · have h0' : (a.withData x y e).asleep = false := by simpa [withData] using h0
           simp only [h0, h0', Bool.false_eq_true, if_false, if_pos hr]
-          have hw := withPlanes_ctlEq a x y
+          have hw := withData_ctlEq a x y e
           have w := writeRam_ctlEq (if cmd = 0x24 then 0 else 1) (if cmd = 0x24 then 0 else 1) ps ps' hp a
-            (a.withPlanes x y) 0 hw
+            (a.withData x y e) 0 hw
           have e1 := w.1.regs
           exact ⟨⟨e1.xPix, e1.stride, e1.rows, e1.entry, e1.xs, e1.xe, e1.ys, e1.ye, e1.uc2, e1.asleep, e1.initialised,
-            e1.resetSeen, e1.unsupported, e1.ignored,
-            by simp only [hp, w.2, atOrigin_ctlEq hw]; rfl,
-            e1.refreshes, e1.regs⟩, w.1.cx, w.1.cy⟩
+            e1.resetSeen, e1.unsupported, e1.ignored, e1.refreshes, e1.regs⟩, w.1.cx, w.1.cy⟩
       · rw [if_neg hr] at hp
         subst hp
-        rw [h.eq_withPlanes]
-        exact feed_ctlEq_same a _ _ _ (by intro c ps hh; injection hh with h1 _; subst h1; exact hr)
+        rw [h.eq_withData]
+        exact feed_ctlEq_same a _ _ _ _ (by intro c ps hh; injection hh with h1 _; subst h1; exact hr)
 
 /-- pointwise shape equality of block lists -/
 def ShapesEq : List Blk → List Blk → Prop
